@@ -15,7 +15,10 @@ def helper_tasks(ctx, shapes=("given", "default"), families=True, all_families=N
     out = []
     allf = ctx.thorough if all_families is None else all_families
     for hid, h in ctx.helpers.items():
-        for shape in shapes:
+        hshapes = list(shapes)
+        if "given" in hshapes and h.params()["varkw"]:
+            hshapes.append("kwonly")      # defaults omitted, **keywords supplied
+        for shape in hshapes:
             if h.family == "scalar" and families:
                 direct = any(isinstance(n, _ast.Name) and n.id == "prepare_attr_value"
                              for n in _ast.walk(h.impl.node))
